@@ -96,6 +96,13 @@ def run : P String := do
     -- sel <tb|sigma|sigmadb> <channel|-> <kw> <source>
     let kind ← tok; let ch ← popt; let kw ← pfix; let src ← psource
     pure (out (do let (r, cm) ← src; let x ← query kind r cm ch kw; pure (showRes x)))
+  else if op == "sellist" then
+    -- sellist <sigma|sigmadb> <k> <theta_1 … theta_k> <kw> <source>: sigma(theta=[…], **kw) with a list of incidence angles
+    let kind ← tok; let k ← tok; let ts ← (List.range k.toNat!).mapM (fun _ => tok); let kw ← pfix; let src ← psource
+    pure (out (do
+      let (r, cm) ← src
+      let x ← Res.sigmaList pi fl r cm none kw ts
+      pure (showRes (if kind == "sigma" then x.squeeze else (x.mapVals dB).squeeze))))
   else if op == "explicit" then
     -- the same selection with the channel's coordinates written out by the caller
     let kind ← tok; let ch ← tok; let src ← psource
